@@ -66,6 +66,9 @@ partial def parseTG : List String → Option (TG × List String)
   | "(" :: "GatherElements0" :: r => do
       let ([x, i], r) ← parseArgs 2 r | none
       some (.gatherElements x i, r)
+  | "(" :: "Trilu" :: up :: r => do
+      let ([x, k], r) ← parseArgs 2 r | none
+      some (.trilu (up == "1") x k, r)
   | "(" :: "CumSum" :: r => do
       let ([x, a], r) ← parseArgs 2 r | none
       some (.cumsum x a, r)
@@ -219,6 +222,10 @@ def cmdTgRender (args0 : List String) : String :=
     | some c => (intIndexGraph x (.inp 1) c).render | none => "bad-op"
   | ["ndindex", rank] => match parseNat? rank with
     | some r => (ndindexGraph x r).render | none => "bad-op"
+  | ["trilu", t, upper, k] => match parseNat? t, parseInt? k with
+    | some t, some k => (triluGraph x t (upper == "1") k).render | _, _ => "bad-op"
+  | ["broadcast_arrays", t, n, i] => match parseNat? t, parseNat? n, parseNat? i with
+    | some t, some n, some i => (broadcastArraysGraph ((List.range n).map TG.inp) t i).render | _, _, _ => "bad-op"
   | ["cumsum", t, axis, dt] =>
     match parseNat? t, parseInt? axis, parseOptCode dt with
     | some t, some ax, some dt => showOptTG (cumsumGraph x t dt ax)
